@@ -43,16 +43,23 @@ def _ids(c):
     return struct.pack(">HHI", c["main"], c["sub"], c["file"])
 
 
-def raw_deflate(data, level=9, strategy=zlib.Z_DEFAULT_STRATEGY):
-    co = zlib.compressobj(level, zlib.DEFLATED, -15, 9, strategy)
+def raw_deflate(data, mode="dynamic"):
+    if mode == "stored":
+        co = zlib.compressobj(0, zlib.DEFLATED, -15)
+    elif mode == "fixed":
+        co = zlib.compressobj(9, zlib.DEFLATED, -15, 9, zlib.Z_FIXED)
+    else:
+        co = zlib.compressobj(9, zlib.DEFLATED, -15)
     return co.compress(data) + co.flush()
 
 
 def data_block(data, comp):
-    """one data block as embedded in F/AddFile: 16-byte header, payload, padded to 128."""
-    if comp:
-        z = raw_deflate(data, 9 if comp is True else comp)
-        assert len(z) < 32000
+    """one data block as embedded in F/AddFile: 16-byte header, payload, padded to 128.
+    comp: False | "raw" -> raw; True | "dynamic" | "fixed" | "stored" -> raw deflate of that flavour."""
+    if comp is True:
+        comp = "dynamic"
+    z = raw_deflate(data, comp) if comp and comp != "raw" else None
+    if z is not None and len(z) < 32000:
         body = struct.pack("<IIii", 16, 0, len(z), len(data)) + z
     else:
         body = struct.pack("<IIii", 16, 0, 32000, len(data)) + data
